@@ -806,6 +806,11 @@ class Project(MessageHandler):
         # Total calendar days (with 50% buffer for weekends/non-working days)
         total_days_needed: int = int((work_days_needed + gap_days) * 1.5) + 7
 
+        # Work that needs more than ten years does not extend the horizon (neither can the
+        # date be computed nor the slot tables be built): its task is reported as not schedulable
+        if total_days_needed > 3650:
+            return
+
         # Calculate minimum required end date
         min_end_date = self.attributes["start"] + timedelta(days=total_days_needed)
 
